@@ -156,3 +156,26 @@ func (p *Set) GoodFindHalving(x int) int {
 	}
 	return x
 }
+
+// BUFCAP: takes the first cell of a buffer that may be empty
+func (p *Set) BadFindBufferedFirstCell(x int, buf []int) int {
+	seen := buf[:1]
+	seen[0] = x
+	return seen[0]
+}
+
+// BUFCAP: append into the emptied buffer allocates when needed
+func (p *Set) GoodFindBufferedAppend(x int, buf []int) int {
+	seen := append(buf[:0], x)
+	return seen[0]
+}
+
+// BUFCAP: the length is checked first
+func (p *Set) GoodFindBufferedChecked(x int, buf []int) int {
+	if len(buf) < 1 {
+		buf = make([]int, 1)
+	}
+	seen := buf[:1]
+	seen[0] = x
+	return seen[0]
+}
